@@ -128,6 +128,39 @@ package metrics
 // obligation atomic-only).
 //@ guarded-contents Collector mu counters gauges histograms timers
 //@ guarded Histogram mu counts sum count
+
+// Interference. The four registries only ever gain entries: a series, once registered, is never
+// replaced or dropped while the collector is in use (Reset is a test / shutdown operation and is
+// not part of the concurrent interface). Guarantee: every registry update is an obligation "the
+// key is absent, or already maps to the value stored". Rely: in the units below, acquiring mu
+// replaces the registry contents by an arbitrary extension of what this call saw last - that is
+// what other goroutines may have done in between. Under that interference the accessor still
+// returns THE registered series: the caller's increments go to the object every other caller gets.
+//@ add-only Collector counters gauges histograms timers
+//@ also func (*Collector).Counter
+//@   requires mc.counters != nil
+//@   modifies mc.counters[*]
+//@   opt concurrent yes
+//@   opt interference yes
+//@   ensures[C11.series-registered+C18.series-identity] (seriesKey(name, tags) in mc.counters) && mc.counters[seriesKey(name, tags)] == result
+//@ also func (*Collector).Gauge
+//@   requires mc.gauges != nil
+//@   modifies mc.gauges[*]
+//@   opt concurrent yes
+//@   opt interference yes
+//@   ensures[C11.series-registered+C18.series-identity] (seriesKey(name, tags) in mc.gauges) && mc.gauges[seriesKey(name, tags)] == result
+//@ also func (*Collector).Histogram
+//@   requires mc.histograms != nil
+//@   modifies mc.histograms[*]
+//@   opt concurrent yes
+//@   opt interference yes
+//@   ensures[C11.series-registered+C18.series-identity] (seriesKey(name, tags) in mc.histograms) && mc.histograms[seriesKey(name, tags)] == result
+//@ also func (*Collector).Timer
+//@   requires mc.timers != nil
+//@   modifies mc.timers[*]
+//@   opt concurrent yes
+//@   opt interference yes
+//@   ensures[C11.series-registered+C18.series-identity] (seriesKey(name, tags) in mc.timers) && mc.timers[seriesKey(name, tags)] == result
 //@ func (*Counter).Inc
 //@   opt concurrent yes
 //@ func (*Counter).Add
